@@ -147,8 +147,8 @@ def indexOf (h : Heap) (a : Nat) (elem : Val) : Int := indexOfLoop h elem (h.ite
 
 /-- `Concat(another)`: a new list cell holding the receiver's then the argument's elements -/
 def concat (h : Heap) (a : Nat) (another : Ref) : Heap × Out Ref :=
-  -- another.getVal().(*list): a derived value is not a *list
-  if h.ego another.addr != 0 || !h.isList another.addr then (h, .panic .runtime)
+  -- another.base(): the embedded implementation, whatever the embedding level of the argument
+  if !h.isList another.addr then (h, .panic .runtime)
   else
     let n := h.length
     (h ++ [.list (h.items a ++ h.items another.addr) 0], .ok ⟨n, 0⟩)
